@@ -79,7 +79,7 @@ def r1_one_impl(rep, ctx):
                       "Scalar.%s and Array.%s name the same database operation (%s) with the same operand order" % (d, d, fs["op"]),
                       "Scalar.%s dispatches to %s/%s but Array.%s to %s/%s" % (d, fs["op"], fs["order"], d, fa["op"], fa["order"]), node=fa.get("node"), fn=fa["fn"])
     # Scalar side
-    sfn = m.method("Scalar", "_DoOperation")
+    sfn = dispatch.do_operation(m, "Scalar")
     sname, sdb, scalls = _opfunc_calls(m, sfn)
     sres = Resolver(m, sfn)
     rep.floor("C10.R1", "operation calls in Scalar._DoOperation", len(scalls), 1)
@@ -88,7 +88,7 @@ def r1_one_impl(rep, ctx):
         ok = len(args) == 4
         rep.check(ok, "C10.R1", "Scalar._DoOperation:%s" % norm(ast.unparse(c))[:80], "the database operation receives (q1, q2, v1, v2)", "operation called with %d arguments" % len(args), node=c, fn=sfn)
     # Array side
-    afn = m.method("Array", "_DoOperation")
+    afn = dispatch.do_operation(m, "Array")
     aname, adb, acalls = _opfunc_calls(m, afn)
     ares = Resolver(m, afn)
     rep.floor("C10.R1", "operation calls in Array._DoOperation", len(acalls), 1)
@@ -212,7 +212,7 @@ def r2_zip(rep, ctx):
 
 def r3_definite(rep, ctx):
     m = ctx.model
-    fn = m.method("Array", "_DoOperation")
+    fn = dispatch.do_operation(m, "Array")
     cfg = CFG(fn.node)
     n = 0
     for r in cfg.returns():
@@ -229,7 +229,7 @@ def r3_definite(rep, ctx):
 def r3b_result_quantity(rep, ctx):
     """The quantity of every result is the one returned by the database operation."""
     m = ctx.model
-    fn = m.method("Array", "_DoOperation")
+    fn = dispatch.do_operation(m, "Array")
     res = Resolver(m, fn)
     n = 0
     for r in own_nodes(fn.node):
@@ -250,7 +250,7 @@ def r3b_result_quantity(rep, ctx):
 
 def r4_container(rep, ctx):
     m = ctx.model
-    fn = m.method("Array", "_DoOperation")
+    fn = dispatch.do_operation(m, "Array")
     res = Resolver(m, fn)
     conv = [st for st in own_statements(fn.node) if isinstance(st, ast.Assign) and isinstance(st.value, ast.Call) and isinstance(st.value.func, ast.Name) and st.value.func.id == "tuple"]
     if not conv:
